@@ -188,6 +188,8 @@ impl Taxonomy {
     pub fn names(&self) -> Vec<String> {
         let mut n: Vec<String> = self.table().keys().map(|s| s.to_string()).collect();
         n.extend(["undefinedThing".to_string(), "marker".to_string(), "choice".to_string(), "x-y".to_string()]);
+        // the names that `is` lists mention without a row of their own (questions about them are questions too)
+        n.extend((0..5).map(|k| format!("undefined{k}")));
         // names that are *not* defs but are made of defs: a conjunct of two defined names, a feature key of two, a
         // defined name with an undefined part (only the def table says what exists)
         let plain: Vec<String> = n.iter().filter(|x| !x.contains('-') && !x.contains(':') && self.defined(x)).cloned().collect();
@@ -265,7 +267,9 @@ pub fn taxonomy(max_defs: usize) -> BoxedStrategy<Taxonomy> {
                         if flavour > 200 {
                             parts.push(plain[idx(edges.get(2).map_or(33333, |e| e.0), plain.len())].clone());
                         }
-                        parts.dedup();
+                        if flavour % 16 != 9 {
+                            parts.dedup(); // (one conjunct in a while keeps a repeated part: `a-a`, `a-a-b`)
+                        }
                         if parts.len() >= 2 {
                             let n = parts.join("-");
                             if !defs.iter().any(|d| d.name == n) {
